@@ -10,8 +10,9 @@ Driver side of C06.
 * `C06 tcp <k> <payloadhex|none> => <reply:<len>|closed|panic:…> <same|changed>` — TCP half over a real
   loopback connection: model = outcome class of `BrowserReq06.handle` (reply length too when the registry is
   empty, k = 0); oracle: no panic, store unchanged.
-* `C06 udpsrv <hex/hex/…> => (alive|dead)* replies:<n>` — MEASUREMENT through the real udpserver: the server
-  answered an `available` request after every datagram, and sent at most one reply per datagram. No model.
+* `C06 udpsrv <hex/hex/…> => (alive|dead)* replies:<n> src=<port> per=<w1>/<w2>/…` — through the real udpserver: the server
+  answered an `available` request after every datagram, and every datagram got at most one reply, exactly the one the model
+  (`Heartbeat.dispatch` from `127.0.0.1:<port>`) gives it (`handleUdpSrv`).
 -/
 namespace Swat4.Drv.C06
 open Swat4 Swat4.Drv Swat4.Drv.Rep Swat4.Heartbeat Swat4.BrowserReq06
@@ -59,14 +60,50 @@ def handleTcp (k payload : String) (out : List String) : Verdict :=
     verdict same ok (why ++ s!"model={repr m}")
   | _, _, _ => .bad "C06 tcp shape"
 
-def handleUdpSrv (out : List String) : Verdict :=
+/-- `udpsrv`: the datagrams went through the real udpserver from `127.0.0.1:<src>`, each followed by an `available`
+request.  Per datagram the harness lists the replies received in its window (`per=`; the availability answer is not listed).
+
+Oracle, per datagram: the model (`Heartbeat.dispatch`, run datagram by datagram from the empty registry at the epoch, source
+`127.0.0.1:<src>`) says which single reply, if any, the datagram is answered with.  Every reply received must be the reply the
+model expects for a datagram sent so far that has not been answered yet (a reply may be late — handlers run on their own
+goroutines — but never early, never repeated, never different), and at the end every expected reply has arrived: so each datagram
+gets at most one reply and exactly the model's.  Outputs recorded before `per=` existed fall back to the per-run count. -/
+def udpBufferSize : Nat := 2048
+
+def handleUdpSrv (payloads : String) (out : List String) : Verdict :=
   let lives := out.filter fun t => t == "alive" || t == "dead"
   let replies := (out.filter (·.startsWith "replies:")).head?.bind fun t => (t.drop 8).toNat?
+  let allAlive := lives.all (· == "alive")
   match replies with
   | none => .bad "C06 udpsrv shape"
   | some n =>
-    let ok := lives.all (· == "alive") && n ≤ lives.length
-    verdict true ok (if lives.all (· == "alive") then "sig=udp-more-than-one-reply" else "sig=udp-server-dead")
+    match kv out "src", kv out "per" with
+    | some src, some per =>
+      match src.toNat?, (payloads.splitOn "/").mapM hex? with
+      | some srcPort, some ps =>
+        let windows := per.splitOn "/"
+        if windows.length != ps.length || lives.length != ps.length then .bad "C06 udpsrv windows" else
+        let loopback : Nat := 127 * 16777216 + 1
+        -- (registry, expected replies not yet received, complaints)
+        let fin := (ps.zip windows).zipIdx.foldl (fun (acc : AbsState × List String × List String) (x : (Bytes × String) × Nat) =>
+          let (st, pending, bad) := acc
+          -- the server reads a datagram into a buffer of `udpBufferSize` bytes (the harness starts it with `WithBufferSize(2048)`,
+          -- the service's setting): the handler sees a longer datagram cut off there
+          let (st', oc) := dispatch cfg st loopback srcPort (x.1.1.take udpBufferSize) epochNs
+          let pending := pending ++ (match oc with | .reply b => [Bytes.toHexTok b] | _ => [])
+          let got := if x.1.2 == "-" then [] else x.1.2.splitOn "+"
+          let (pending, bad) := got.foldl (fun (a : List String × List String) r =>
+            if a.1.contains r then (a.1.erase r, a.2) else (a.1, a.2 ++ [s!"datagram{x.2}:unexpected-reply:{r.take 40}:model={renderOutcome oc |>.take 60}"])) (pending, bad)
+          (st', pending, bad)) (({} : AbsState), [], [])
+        let (_, pending, bad) := fin
+        let matched := bad.isEmpty && pending.isEmpty
+        let ok := allAlive && matched
+        verdict ok ok ((cond allAlive "" "sig=udp-server-dead ") ++ (cond bad.isEmpty "" s!"sig=udp-reply-not-the-models:{bad} ") ++
+          (cond pending.isEmpty "" s!"sig=udp-reply-missing:{pending.map (·.take 40)} "))
+      | _, _ => .bad "C06 udpsrv src/payloads"
+    | _, _ =>
+      let ok := allAlive && n ≤ lives.length
+      verdict true ok (if allAlive then "sig=udp-more-than-one-reply" else "sig=udp-server-dead")
 
 /-- `stall:<S>:<F>` of the stall measurements (`cstall`: browser port, `cstallhttp`: REST port) -/
 def handleStall (out : List String) : Verdict :=
@@ -101,7 +138,7 @@ def handle (args out : List String) : Verdict :=
     match out with
     | [cls, _] => if cls == "ok" then .agree else .disagreeFails s!"sig=tcp-panic concurrent-encrypt {cls.take 120}"
     | _ => .bad "C06 encpar shape"
-  | ["udpsrv", _] => handleUdpSrv out
+  | ["udpsrv", payloads] => handleUdpSrv payloads out
   | _ =>
     match records args out with
     | none => .bad "C06 shape"
